@@ -13,5 +13,13 @@ pub assume_specification<T, E, U>[ Result::<T, E>::and::<U> ](a: Result<T, E>, b
 pub assume_specification<T, E, U, F: FnOnce(T) -> Result<U, E>>[ Result::<T, E>::and_then::<U, F> ](a: Result<T, E>, f: F) -> (r: Result<U, E>)
     requires a is Ok ==> f.requires((a->Ok_0,)),
     ensures match a { Ok(v) => f.ensures((v,), r), Err(e) => r == Err::<U, E>(e) };
+pub assume_specification<T, P: FnOnce(&T) -> bool>[ Option::<T>::filter::<P> ](o: Option<T>, p: P) -> (r: Option<T>)
+    requires o is Some ==> p.requires((&o->Some_0,)),
+    ensures match o {
+        Some(v) => (r is None || r == Some(v)) && (r is Some ==> p.ensures((&v,), true)) && (r is None ==> p.ensures((&v,), false)),
+        None => r is None,
+    };
+pub assume_specification<T: Eq + Hash, const N: usize>[ <HashSet<T> as From<[T; N]>>::from ](arr: [T; N]) -> (r: HashSet<T>)
+    ensures r@ == arr@.to_set();
 // Vec lengths never exceed usize::MAX (std: capacity <= isize::MAX)
 pub axiom fn axiom_vec_len_bound<T>(v: &Vec<T>) ensures v@.len() <= usize::MAX;
